@@ -143,21 +143,24 @@ example : (3 : Nat) ≤ ({ (Mgr.start emptyDb) with pub := { (Mgr.start emptyDb)
 (any operations, any faults in the private and in the public write, any number of failed public
 writes, recoveries at the threshold) and restarts, whenever the public write of the next
 iteration commits, the public file equals the private file. -/
-def ConvergesFor (cfg : Cfg) : Prop :=
+def pub_converges_full (cfg : Cfg) : Prop :=
   ∀ (ss : List Schema) (f0 : Db) (evs : List Ev) (ops : List Op) (pf uf : Fault),
     ((Mgr.start f0).run cfg ss evs |>.process cfg ss ops pf uf).2.pub = some .committed →
     ((Mgr.start f0).run cfg ss evs |>.process cfg ss ops pf uf).1.pub.store.file
       = ((Mgr.start f0).run cfg ss evs |>.process cfg ss ops pf uf).1.pri.store.file
 
-/-- For the repaired retry (statements of failed attempts keep their order; the recovery clears
-the public queue): full convergence.  Moreover, in every reachable state
+/-- `pub_converges_full` holds for the repaired retry (statements of failed attempts keep their order;
+the recovery clears the public queue) — the excluding hypotheses `hk`, `hr` are about the code's
+behaviour, not about the histories: every history, fault pattern and batch is covered.  What is
+missing for the unrepaired code (`retryKeepsOrder = false` or `recoverClearsQueue = false`) is
+shown false by `pub_converges_counterexample` / `recover_stale_queue_counterexample`.  Moreover, in every reachable state
 * a recovery makes the files equal,
 * an iteration whose public write is not disturbed and whose private write does not fail ends
   with equal files (so one undisturbed iteration is enough, whatever happened before),
 * the failure counter stays below `MAX_TRIES` at the end of every iteration. -/
-theorem pub_converges (cfg : Cfg) (hk : cfg.retryKeepsOrder = true) (hr : cfg.recoverClearsQueue = true)
+theorem pub_converges_partial (cfg : Cfg) (hk : cfg.retryKeepsOrder = true) (hr : cfg.recoverClearsQueue = true)
     (hm : 0 < cfg.maxTries) :
-    ConvergesFor cfg ∧
+    pub_converges_full cfg ∧
     ∀ (ss : List Schema) (f0 : Db) (evs : List Ev) (ops : List Op) (pf uf : Fault),
       let m := (Mgr.start f0).run cfg ss evs
       let m1 := (m.process cfg ss ops pf uf).1
@@ -181,7 +184,7 @@ theorem pub_converges (cfg : Cfg) (hk : cfg.retryKeepsOrder = true) (hr : cfg.re
       omega
     | false => exact hpend hf
 
-/-- the hypotheses of `pub_converges` are satisfiable and the conclusion is not vacuous: a history
+/-- the hypotheses of `pub_converges_partial` are satisfiable and the conclusion is not vacuous: a history
 with a failed public write (lock) followed by a committed one -/
 example :
     let cfg : Cfg := ⟨true, true, 100⟩
@@ -195,13 +198,13 @@ example :
 the live code keeps the statement order and clears the queue on recovery, it converges
 (`MAX_TRIES` of the live code must be positive — checked here on the generated constant). -/
 theorem pub_converges_live (hk : liveCfg.retryKeepsOrder = true) (hr : liveCfg.recoverClearsQueue = true) :
-    ConvergesFor liveCfg :=
-  (pub_converges liveCfg hk hr (by decide)).1
+    pub_converges_full liveCfg :=
+  (pub_converges_partial liveCfg hk hr (by decide)).1
 
 /-- Merging a failed batch into the per-table queues (the behaviour of the unrepaired code,
 `retryKeepsOrder = false`) breaks convergence: `insert x` fails on a lock, `delete x` comes with the
 next batch, the retry runs the delete first — the public database keeps `x`. -/
-theorem pub_converges_merge_counterexample : ¬ ConvergesFor ⟨false, false, 100⟩ ∧ ¬ ConvergesFor ⟨false, true, 100⟩ := by
+theorem pub_converges_counterexample : ¬ pub_converges_full ⟨false, false, 100⟩ ∧ ¬ pub_converges_full ⟨false, true, 100⟩ := by
   constructor <;>
   · intro h
     have := h [⟨"t", ["a", "v"], [0]⟩] emptyDb
@@ -214,7 +217,7 @@ theorem pub_converges_merge_counterexample : ¬ ConvergesFor ⟨false, false, 10
 /-- Leaving the failed batches queued in the public DAO when the public file is replaced by a
 copy of the private one (`recoverClearsQueue = false`) breaks convergence too: the next public
 write applies them a second time (duplicate rows in a table without primary key). -/
-theorem recover_stale_queue_counterexample : ¬ ConvergesFor ⟨true, false, 1⟩ := by
+theorem recover_stale_queue_counterexample : ¬ pub_converges_full ⟨true, false, 1⟩ := by
   intro h
   have := h [⟨"e", ["n", "v"], []⟩] emptyDb
     [.round [.insList "e" [.str "a", .str "1"]] .none .lock]
